@@ -555,11 +555,16 @@ func (ps *PruningStorer) Remove(key []byte) error {
 
 	ps.lock.RLock()
 	defer ps.lock.RUnlock()
+	// the key might live in an older active persister, so the removal is attempted in all of them
+	removed := false
 	for _, pd := range ps.activePersisters {
 		err = pd.persister.Remove(key)
 		if err == nil {
-			return nil
+			removed = true
 		}
+	}
+	if removed {
+		return nil
 	}
 
 	return err
